@@ -2,6 +2,8 @@ use crate::common::Tier;
 
 pub mod analysis;
 pub mod artifacts;
+pub mod determ;
+pub mod farm;
 pub mod dbg;
 pub mod ll;
 pub mod lr;
@@ -26,6 +28,8 @@ pub fn run(id: &str, tier: Tier, replay: Option<&str>) -> i32 {
         "C26-deep" => nopanic::deep_worker(&std::env::args().skip(2).collect::<Vec<_>>()),
         "C27" | "C28" | "C30" | "C34" => lsprops::run(id, tier, replay),
         "C29" => lssched::run(tier, replay),
+        "C24" => determ::run(tier, replay),
+        "C22" | "C23" => farm::run(id, tier, replay),
         "C05" | "C06" | "C07" | "C08" => analysis::run(id, tier, replay),
         "dbg" => dbg::run(&std::env::args().skip(2).collect::<Vec<_>>()),
         "count" => {
